@@ -211,42 +211,88 @@ def r5_default(run):
                          "%s:%d" % (mi.relpath, st.lineno))
 
 
+def key_filter_sites(run):
+    """Accept sites of MetaData.certs with, per site, the verdict of the key
+    filter in the three cases of KeyDescriptor/@use (absent / equal to the
+    requested use / different).  Shared by C03.R6 and C17.R7.
+
+    Returns (fi, [(label, loc, {case: (verdict, tests)})])."""
+    from .. import symbolic
+    m = run.model
+    fi = m.func("mdstore.MetaData.certs")
+    scopes = [n for n in ast.walk(fi.node) if isinstance(n, ast.FunctionDef)]
+    field_re = ("'use'", '"use"')
+
+    def record_names(fn):
+        out = set()
+        for n in walk_no_nested(fn):
+            if isinstance(n, ast.Compare) and len(n.ops) == 1 and \
+                    isinstance(n.ops[0], (ast.In, ast.NotIn)) and \
+                    isinstance(n.left, ast.Constant) and n.left.value == "use" \
+                    and isinstance(n.comparators[0], ast.Name):
+                out.add(n.comparators[0].id)
+            if isinstance(n, ast.Subscript) and isinstance(n.value, ast.Name) \
+                    and isinstance(n.slice, ast.Constant) and \
+                    n.slice.value == "use":
+                out.add(n.value.id)
+            if isinstance(n, ast.Call) and isinstance(n.func, ast.Attribute) \
+                    and n.func.attr == "get" and \
+                    isinstance(n.func.value, ast.Name) and n.args and \
+                    isinstance(n.args[0], ast.Constant) and \
+                    n.args[0].value == "use":
+                out.add(n.func.value.id)
+        return out
+    # helpers that only collect (no use test of their own): their call sites
+    # are the accept sites
+    collectors = set()
+    for fn in scopes:
+        own = [n for n in walk_no_nested(fn)]
+        has_append = any(isinstance(n, ast.Call) and call_name(n) == "append"
+                         for n in own)
+        tests_use = any(record_names(t) for t in own
+                        if isinstance(t, (ast.If, ast.IfExp, ast.While)))
+        if fn is not fi.node and has_append and not tests_use and \
+                not record_names(fn):
+            collectors.add(fn.name)
+    sites = []
+    for fn in scopes:
+        recs = record_names(fn)
+        if len(recs) != 1:
+            continue
+        rec = sorted(recs)[0]
+        cfg = CFG(fn, m, fi.qual + ("." + fn.name if fn is not fi.node else ""))
+        accept = [(nd, c) for nd, c in cfg.call_nodes("append")]
+        for name in collectors:
+            accept += cfg.call_nodes(name)
+        for nd, c in accept:
+            per = {}
+            for case in (symbolic.ABSENT, symbolic.SAME, symbolic.OTHER):
+                fc = symbolic.FieldCase(case, rec, "use", "use")
+                per[case] = symbolic.guard_verdict(cfg, nd.id, fc)
+            sites.append(("%s::%s" % (cfg.name, norm_text(c)), fi.loc(c), per))
+    return fi, sites
+
+
 def r6_certs_filter(run):
     run.rule("R6", "MetaData.certs returns a key only if its use equals the "
              "requested use or it declares none, and only from the entity "
              "looked up by the given entity_id")
+    from .. import symbolic
     m = run.model
-    fi = m.func("mdstore.MetaData.certs")
-    inner = [n for n in ast.walk(fi.node)
-             if isinstance(n, ast.FunctionDef) and n is not fi.node]
-    run.require(len(inner) == 1, "MetaData.certs: helper extract_certs vanished")
-    icfg = CFG(inner[0], m, fi.qual + ".extract_certs")
-    appends = [(nd, c) for nd, c in icfg.call_nodes("append")]
-    run.floor("R6", "append sites", len(appends), 1)
-    for nd, c in appends:
-        ok = False
-        facts = []
-        for e, pol, _ in icfg.guards(nd.id):
-            facts.append((unparse(e), pol))
-            cp = compare_parts(e)
-            if cp is None:
-                continue
-            l, op, r = cp
-            txt = {unparse(l), unparse(r)}
-            if isinstance(op, ast.Eq) and pol and "use" in txt and \
-                    any(("'use'" in x and "key" in x) for x in txt):
-                ok = True
-            if isinstance(op, ast.In) and not pol and unparse(l) == "'use'":
-                ok = True
-            if isinstance(op, ast.NotIn) and pol and unparse(l) == "'use'":
-                ok = True
-            if isinstance(op, ast.In) and pol and "get('use')" in unparse(l) \
-                    and "use" in unparse(r) and "None" in unparse(r):
-                ok = True
-        run.check(ok, "R6", "%s::%s" % (icfg.name, norm_text(c)),
-                  "guarded by use == requested or no use declared",
-                  "certificate appended under guards %s: keys of a different "
-                  "use would be returned" % facts, fi.loc(c))
+    fi, sites = key_filter_sites(run)
+    run.floor("R6", "certificate accept sites in MetaData.certs", len(sites), 1)
+    for label, loc, per in sites:
+        v, tests = per[symbolic.OTHER]
+        run.check(v == "excluded", "R6", label + "::other-use=>excluded",
+                  "a key descriptor whose use differs from the requested one "
+                  "never reaches this statement",
+                  "a certificate of a different use can be returned: with "
+                  "use != requested the guards evaluate to %s" % tests, loc)
+    ok = any(per[symbolic.SAME][0] == "consistent" for _, _, per in sites)
+    run.check(ok, "R6", fi.qual + "::same-use=>included",
+              "a key descriptor of the requested use is returned",
+              "no accept site is reached for a key of the requested use: %s" %
+              [(l, per[symbolic.SAME]) for l, _, per in sites], fi.loc())
     # requested use flows from the parameter (closure variable `use`)
     run.check("use" in fi.params(), "R6", fi.qual + "::use-param",
               "use is a parameter", "parameter `use` vanished", fi.loc(),
